@@ -44,8 +44,12 @@ type half struct {
 	wfailAt   int64
 	wfailErr  error
 	wfailOnce bool
-	wake      chan struct{} // closed+replaced on every change, for unmanaged readers
-	onFault   func(kind string)
+	// back-pressure: with a capacity set, a write blocks while that many bytes are unread - a peer that has stopped
+	// reading (its receive window is full) stalls the server's writer goroutine for as long as it likes
+	capacity    int
+	stalledOnce bool
+	wake        chan struct{} // closed+replaced on every change, for unmanaged readers
+	onFault     func(kind string)
 }
 
 func newHalf() *half { return &half{failAt: -1, wake: make(chan struct{})} }
@@ -55,9 +59,29 @@ func (h *half) signal() {
 	h.wake = make(chan struct{})
 }
 
+func (h *half) hasRoom() bool {
+	h.mu.Lock()
+	defer h.mu.Unlock()
+	return h.capacity <= 0 || len(h.buf) < h.capacity || h.werr != nil || h.closed
+}
+
 func (h *half) write(b []byte) (int, error) {
 	h.mu.Lock()
 	defer h.mu.Unlock()
+	for h.capacity > 0 && len(h.buf) >= h.capacity && h.werr == nil && !h.closed {
+		if h.onFault != nil && !h.stalledOnce {
+			h.stalledOnce = true
+			h.onFault("writer-stalled-by-back-pressure")
+		}
+		wake := h.wake
+		h.mu.Unlock()
+		if simrt.IsTask() {
+			simrt.Block(h.hasRoom)
+		} else {
+			<-wake
+		}
+		h.mu.Lock()
+	}
 	if h.werr != nil {
 		return 0, h.werr
 	}
@@ -129,6 +153,9 @@ func (h *half) read(b []byte) (int, error) {
 			copy(b, h.buf[:n])
 			h.buf = h.buf[n:]
 			h.consumed += int64(n)
+			if h.capacity > 0 {
+				h.signal() // room for a stalled writer
+			}
 			if h.eofWithData && h.closed && len(h.buf) == 0 {
 				h.mu.Unlock()
 				return n, io.EOF
